@@ -762,14 +762,19 @@ class ExcelInPython:
         return len(empty)
 
     def _ifs(self, flatten_list: List):
-        err_value = self._find_error_in_list(flatten_list)
-        if err_value:
-            return err_value
+        # Conditions and values arrive as functions and are evaluated in order, each only when it is reached:
+        # a failing value or an error text in a pair that is not chosen must not decide the result.
+        def value_of(item):
+            return item() if callable(item) else item
 
         index = 0
-        while index < len(flatten_list):
-            if flatten_list[index]:
-                return flatten_list[index + 1]
+        while index + 1 < len(flatten_list):
+            condition = value_of(flatten_list[index])
+            err_value = self._find_error_in_list(self._flatten_list([condition]))
+            if err_value:
+                return err_value
+            if condition:
+                return value_of(flatten_list[index + 1])
             index += 2
 
         return '#N/A'
